@@ -4,12 +4,12 @@ import Pakhi.Model.Lexer
 namespace Pakhi
 namespace Generated
 
-def keywords : List (List Nat × TK) := [([2472, 2494, 2478], .kVar), ([2479, 2470, 2495], .kIf), ([2437, 2469, 2476, 2494], .kElse), ([2482, 2497, 2474], .kLoop), ([2475, 2494, 2434], .kFunc), ([2475, 2503, 2480, 2468], .ret), ([2469, 2494, 2478, 2494, 2451], .brk), ([2438, 2476, 2494, 2480], .cont), ([2470, 2503, 2454, 2494, 2451], .print), ([95, 2470, 2503, 2454, 2494, 2451], .printNoEOL), ([2488, 2468, 2509, 2479], .bool true), ([2478, 2495, 2469, 2509, 2479, 2494], .bool false), ([2478, 2465, 2495, 2441, 2482], .import)]
-def simpleToks : List (Nat × TK) := [(43, .plus), (42, .mul), (47, .div), (37, .rem), (38, .and), (124, .or), (64, .at), (59, .semi), (44, .comma), (40, .lparen), (41, .rparen), (123, .lcurly), (125, .rcurly), (91, .lsq), (93, .rsq)]
-def twoCharToks : List (Nat × Nat × TK × TK) := [(33, 61, .ne, .not), (61, 61, .eqeq, .eq), (60, 61, .le, .lt), (62, 61, .ge, .gt)]
-def minusArm : TK × TK := (.map, .minus)
-def blanks : List Nat := [32, 13, 9]
-def afterOperand : TK → Bool
+def keywords : Option (List (List Nat × TK)) := some ([([2472, 2494, 2478], .kVar), ([2479, 2470, 2495], .kIf), ([2437, 2469, 2476, 2494], .kElse), ([2482, 2497, 2474], .kLoop), ([2475, 2494, 2434], .kFunc), ([2475, 2503, 2480, 2468], .ret), ([2469, 2494, 2478, 2494, 2451], .brk), ([2438, 2476, 2494, 2480], .cont), ([2470, 2503, 2454, 2494, 2451], .print), ([95, 2470, 2503, 2454, 2494, 2451], .printNoEOL), ([2488, 2468, 2509, 2479], .bool true), ([2478, 2495, 2469, 2509, 2479, 2494], .bool false), ([2478, 2465, 2495, 2441, 2482], .import)])
+def simpleToks : Option (List (Nat × TK)) := some ([(43, .plus), (42, .mul), (47, .div), (37, .rem), (38, .and), (124, .or), (64, .at), (59, .semi), (44, .comma), (40, .lparen), (41, .rparen), (123, .lcurly), (125, .rcurly), (91, .lsq), (93, .rsq)])
+def twoCharToks : Option (List (Nat × Nat × TK × TK)) := some ([(33, 61, .ne, .not), (61, 61, .eqeq, .eq), (60, 61, .le, .lt), (62, 61, .ge, .gt)])
+def minusArm : Option (TK × TK) := some ((.map, .minus))
+def blanks : Option (List Nat) := some ([32, 13, 9])
+def afterOperandFn : TK → Bool
   | .num _ => true
   | .str _ => true
   | .ident => true
@@ -17,25 +17,26 @@ def afterOperand : TK → Bool
   | .rparen => true
   | .rsq => true
   | _ => false
-def identExtra : List Nat := [45, 95, 47]
-def digitsLexer : List (Nat × Nat) := [(2534, 0), (2535, 1), (2536, 2), (2537, 3), (2538, 4), (2539, 5), (2540, 6), (2541, 7), (2542, 8), (2543, 9)]
-def digitsBnEn : List (Nat × Nat) := [(2534, 48), (2535, 49), (2536, 50), (2537, 51), (2538, 52), (2539, 53), (2540, 54), (2541, 55), (2542, 56), (2543, 57)]
-def digitsEnBn : List (Nat × Nat) := [(48, 2534), (49, 2535), (50, 2536), (51, 2537), (52, 2538), (53, 2539), (54, 2540), (55, 2541), (56, 2542), (57, 2543)]
-def digitsPrint : List (Nat × Nat) := [(45, 45), (46, 46), (48, 2534), (49, 2535), (50, 2536), (51, 2537), (52, 2538), (53, 2539), (54, 2540), (55, 2541), (56, 2542), (57, 2543)]
-def builtins : List (List Nat) := [[95, 2488, 2509, 2463, 2509, 2480, 2495, 2434], [95, 2488, 2434, 2454, 2509, 2479, 2494], [95, 2482, 2495, 2488, 2509, 2463, 45, 2474, 2497, 2486], [95, 2482, 2495, 2488, 2509, 2463, 45, 2474, 2474], [95, 2482, 2495, 2488, 2509, 2463, 45, 2482, 2503, 2472], [95, 2480, 2495, 2465, 45, 2482, 2494, 2439, 2472], [95, 2447, 2480, 2480], [95, 2488, 2509, 2463, 2509, 2480, 2495, 2434, 45, 2488, 2509, 2474, 2509, 2482, 2495, 2463], [95, 2488, 2509, 2463, 2509, 2480, 2495, 2434, 45, 2460, 2527, 2503, 2472], [95, 2463, 2494, 2439, 2474], [95, 2480, 2495, 2465, 45, 2475, 2494, 2439, 2482], [95, 2480, 2494, 2439, 2463, 45, 2475, 2494, 2439, 2482], [95, 2465, 2495, 2482, 2495, 2463, 45, 2475, 2494, 2439, 2482], [95, 2472, 2468, 2497, 2472, 45, 2465, 2494, 2439, 2480, 2503, 2453, 2509, 2463, 2480, 2495], [95, 2480, 2495, 2465, 45, 2465, 2494, 2439, 2480, 2503, 2453, 2509, 2463, 2480, 2495], [95, 2465, 2495, 2482, 2495, 2463, 45, 2465, 2494, 2439, 2480, 2503, 2453, 2509, 2463, 2480, 2495], [95, 2475, 2494, 2439, 2482, 45, 2472, 2494, 2453, 2495, 45, 2465, 2494, 2439, 2480, 2503, 2453, 2509, 2463, 2480, 2495]]
+def afterOperand : Option (TK → Bool) := some afterOperandFn
+def identExtra : Option (List Nat) := some ([45, 95, 47])
+def digitsLexer : Option (List (Nat × Nat)) := some ([(2534, 0), (2535, 1), (2536, 2), (2537, 3), (2538, 4), (2539, 5), (2540, 6), (2541, 7), (2542, 8), (2543, 9)])
+def digitsBnEn : Option (List (Nat × Nat)) := some ([(2534, 48), (2535, 49), (2536, 50), (2537, 51), (2538, 52), (2539, 53), (2540, 54), (2541, 55), (2542, 56), (2543, 57)])
+def digitsEnBn : Option (List (Nat × Nat)) := some ([(48, 2534), (49, 2535), (50, 2536), (51, 2537), (52, 2538), (53, 2539), (54, 2540), (55, 2541), (56, 2542), (57, 2543)])
+def digitsPrint : Option (List (Nat × Nat)) := some ([(45, 45), (46, 46), (48, 2534), (49, 2535), (50, 2536), (51, 2537), (52, 2538), (53, 2539), (54, 2540), (55, 2541), (56, 2542), (57, 2543)])
+def builtins : Option (List (List Nat)) := some ([[95, 2488, 2509, 2463, 2509, 2480, 2495, 2434], [95, 2488, 2434, 2454, 2509, 2479, 2494], [95, 2482, 2495, 2488, 2509, 2463, 45, 2474, 2497, 2486], [95, 2482, 2495, 2488, 2509, 2463, 45, 2474, 2474], [95, 2482, 2495, 2488, 2509, 2463, 45, 2482, 2503, 2472], [95, 2480, 2495, 2465, 45, 2482, 2494, 2439, 2472], [95, 2447, 2480, 2480], [95, 2488, 2509, 2463, 2509, 2480, 2495, 2434, 45, 2488, 2509, 2474, 2509, 2482, 2495, 2463], [95, 2488, 2509, 2463, 2509, 2480, 2495, 2434, 45, 2460, 2527, 2503, 2472], [95, 2463, 2494, 2439, 2474], [95, 2480, 2495, 2465, 45, 2475, 2494, 2439, 2482], [95, 2480, 2494, 2439, 2463, 45, 2475, 2494, 2439, 2482], [95, 2465, 2495, 2482, 2495, 2463, 45, 2475, 2494, 2439, 2482], [95, 2472, 2468, 2497, 2472, 45, 2465, 2494, 2439, 2480, 2503, 2453, 2509, 2463, 2480, 2495], [95, 2480, 2495, 2465, 45, 2465, 2494, 2439, 2480, 2503, 2453, 2509, 2463, 2480, 2495], [95, 2465, 2495, 2482, 2495, 2463, 45, 2465, 2494, 2439, 2480, 2503, 2453, 2509, 2463, 2480, 2495], [95, 2475, 2494, 2439, 2482, 45, 2472, 2494, 2453, 2495, 45, 2465, 2494, 2439, 2480, 2503, 2453, 2509, 2463, 2480, 2495]])
 /-- (index of the `DataType` variant in declaration order, name) -/
-def typeNames : List (Nat × List Nat) := [(0, [95, 2488, 2434, 2454, 2509, 2479, 2494]), (1, [95, 2476, 2497, 2482, 2495, 2527, 2494, 2472]), (2, [95, 2488, 2509, 2463, 2509, 2480, 2495, 2434]), (3, [95, 2482, 2495, 2488, 2509, 2463]), (4, [95, 2480, 2503, 2453, 2480, 2509, 2465]), (5, [95, 2475, 2494, 2434]), (6, [95, 2486, 2498, 2472, 2509, 2479])]
-def gcThreshold : Nat := 1000
-def platformConst : List Nat := [95, 2474, 2509, 2482, 2509, 2479, 2494, 2463, 2475, 2480, 2509, 2478]
-def platformNotRenamed : List Nat := [95, 2474, 2509, 2482, 2509, 2479, 2494, 2463, 2475, 2480, 2509, 2478]
-def dirnameConst : List Nat := [95, 2465, 2494, 2439, 2480, 2503, 2453, 2509, 2463, 2480, 2495]
-def boolWords : List (Bool × List Nat) := [(true, [2488, 2468, 2509, 2479]), (false, [2478, 2495, 2469, 2509, 2479, 2494])]
+def typeNames : Option (List (Nat × List Nat)) := some ([(0, [95, 2488, 2434, 2454, 2509, 2479, 2494]), (1, [95, 2476, 2497, 2482, 2495, 2527, 2494, 2472]), (2, [95, 2488, 2509, 2463, 2509, 2480, 2495, 2434]), (3, [95, 2482, 2495, 2488, 2509, 2463]), (4, [95, 2480, 2503, 2453, 2480, 2509, 2465]), (5, [95, 2475, 2494, 2434]), (6, [95, 2486, 2498, 2472, 2509, 2479])])
+def gcThreshold : Option Nat := some (1000)
+def platformConst : Option (List Nat) := some ([95, 2474, 2509, 2482, 2509, 2479, 2494, 2463, 2475, 2480, 2509, 2478])
+def platformNotRenamed : Option (List Nat) := some ([95, 2474, 2509, 2482, 2509, 2479, 2494, 2463, 2475, 2480, 2509, 2478])
+def dirnameConst : Option (List Nat) := some ([95, 2465, 2494, 2439, 2480, 2503, 2453, 2509, 2463, 2480, 2495])
+def boolWords : Option (List (Bool × List Nat)) := some ([(true, [2488, 2468, 2509, 2479]), (false, [2478, 2495, 2469, 2509, 2479, 2494])])
 /-- (level, operators, level of the operand parser, level of the AST constructor) -/
-def ladder : List (Nat × List TK × Nat × Nat) := [(0, [.or], 1, 0), (1, [.and], 2, 1), (2, [.ne, .eqeq], 3, 2), (3, [.gt, .ge, .lt, .le], 4, 3), (4, [.plus, .minus], 5, 4), (5, [.mul, .div, .rem], 6, 5)]
-def expressionEntry : Nat := 0
-def unaryOps : List TK := [.not, .minus]
+def ladder : Option (List (Nat × List TK × Nat × Nat)) := some [(0, [.or], 1, 0), (1, [.and], 2, 1), (2, [.ne, .eqeq], 3, 2), (3, [.gt, .ge, .lt, .le], 4, 3), (4, [.plus, .minus], 5, 4), (5, [.mul, .div, .rem], 6, 5)]
+def expressionEntry : Option Nat := some 0
+def unaryOps : Option (List TK) := some [.not, .minus]
 /-- 1 iff `unary()` falls through to `call()` -/
-def unaryNextIsCall : Nat := 1
+def unaryNextIsCall : Option Nat := some 1
 
 end Generated
 end Pakhi
